@@ -42,7 +42,7 @@ func perms(n int) [][]int {
 }
 
 func genLaswp(g *vlib.G) {
-	M0 := vlib.Pick(g, 4, 5)
+	M0 := vlib.Pick(g, 5, 6)
 	for m := 1; m <= M0; m++ {
 		for k1 := 0; k1 < m; k1++ {
 			for k2 := k1; k2 < m; k2++ {
@@ -125,7 +125,7 @@ func genLaswp(g *vlib.G) {
 }
 
 func genLapm(g *vlib.G) {
-	K := vlib.Pick(g, 5, 6)
+	K := vlib.Pick(g, 6, 7)
 	for _, rows := range []bool{false, true} {
 		name := "Dlapmt"
 		if rows {
